@@ -61,6 +61,17 @@ pub fn oracle(frame: &[u8], suffix: &[u8]) -> Result<(), (String, String)> {
             None => return Err(("c13:scanner-frame-depends-on-suffix".into(), format!("scanner {}: valid frame at offset 0 not delivered (consumed {})", which, c))),
         }
     }
+    // the same bytes at another memory offset (slice start not aligned like the Vec's allocation) and looked at twice
+    {
+        let k = (suffix.len() + l) % 7 + 1;
+        let mut shifted = vec![0xAAu8; k];
+        shifted.extend_from_slice(&ext);
+        let c = observe(&shifted[k..]).map_err(|e| ("c13:valid-frame-rejected-with-suffix".to_string(), format!("frame + suffix at slice offset {} rejected: {}", k, e)))?;
+        let c2 = observe(&shifted[k..]).map_err(|e| ("c13:valid-frame-rejected-with-suffix".to_string(), format!("frame + suffix rejected the second time: {}", e)))?;
+        if c != b || c2 != b {
+            return Err(("c13:depends-on-slice-position".into(), format!("the same frame + suffix observed from a slice starting {} byte(s) into an allocation (or observed twice) gives different attributes", k)));
+        }
+    }
     if a != b {
         let what = if a.number != b.number {
             "message_number"
@@ -86,7 +97,7 @@ pub fn run(ctx: &Ctx, replay: Option<&J>) -> CheckResult {
     let rule = "valid frames of every payload length L=0..=1023 (random payloads, random reserved bits) plus every golden frame (typed decode) and structured / hostile frames of every supported number (incl. 1029 frames whose byte counter exceeds the payload) x \
         suffixes {1,2,3 bytes, many random bytes, another valid frame, a copy of the frame itself, a damaged copy, >1029 random bytes, 0xD3 runs, 0x00/0xFF runs, and for every length suffixes that bring the total to 65535, 65536, 65537, 65536+L+5, 65536+L+6, 131072, 131075 and 196608+ bytes}; oracle: (frame_len, data_len, payload, \
         frame bytes, crc, message_number, Debug of decoded message) identical with and without suffix, message_number == first 12 payload bits \
-        iff L>=2 else None (then decode is Empty); next_msg_frame delivers the same frame from offset 0 with and without the suffix. non-trivial = non-empty suffix; distinct = hash(frame, suffix)"
+        iff L>=2 else None (then decode is Empty); next_msg_frame delivers the same frame from offset 0 with and without the suffix; the same bytes observed from a slice at another memory offset, and observed twice, give the same attributes. non-trivial = non-empty suffix; distinct = hash(frame, suffix)"
         .to_string();
     let assumptions = vec!["frames are built by the harness' own framing code with its own CRC".to_string()];
     if let Some(case) = replay {
